@@ -44,6 +44,7 @@ Inductive pc :=
 | FCas (v cv ck : Z)         (* next: CAS head (cv,ck) -> (v,ck+1) *)
 | ESlot (v k : Z).           (* emplace: allocated (v,k); next: slot[v].version := k; construct; return *)
 
+(* prog: the operations still to run (head = current); results: newest first *)
 Record thread := { prog : list op; tpc : pc; held : list id; taken : list id; results : list res }.
 
 Record shared := {
@@ -92,7 +93,7 @@ Definition goto (th : thread) (p : pc) : thread :=
   {| prog := prog th; tpc := p; held := held th; taken := taken th; results := results th |}.
 (* the current operation returns r *)
 Definition ret (th : thread) (h t : list id) (r : res) : thread :=
-  {| prog := tl (prog th); tpc := Idle; held := h; taken := t; results := results th ++ [r] |}.
+  {| prog := tl (prog th); tpc := Idle; held := h; taken := t; results := r :: results th |}.
 
 Definition set_head (s : shared) (v k : Z) (f : list Z) : shared :=
   {| hv := v; hk := k; nxt := nxt s; nv := nv s; sver := sver s; ids := ids s; fl := f; boxed := boxed s;
@@ -205,4 +206,4 @@ Definition held_values (s : st) : list Z :=
 
 (* observable outcome of a finished execution, as the implementation driver prints it *)
 Definition outcome (c : cfg) (s : st) : list (list res) * list Z * Z :=
-  (map results (threads s), live c (sh s), nv (sh s)).
+  (map (fun th => rev (results th)) (threads s), live c (sh s), nv (sh s)).
